@@ -35,6 +35,12 @@ type HPet struct {
 	Toy    HToy
 }
 
+// HOther shares the field name S with HRow but maps it to another column.
+type HOther struct {
+	ID int64
+	S  string `gorm:"column:ess"`
+}
+
 type HToy struct {
 	ID     int64
 	HPetID int64
@@ -82,7 +88,7 @@ func newEnv(real bool) (*env, error) {
 		return nil, err
 	}
 	sqldb.SetMaxOpenConns(1)
-	if err := db.AutoMigrate(&HRow{}, &HPet{}, &HToy{}); err != nil {
+	if err := db.AutoMigrate(&HRow{}, &HPet{}, &HToy{}, &HOther{}); err != nil {
 		return nil, err
 	}
 	if !real {
@@ -142,6 +148,8 @@ func apply(tx *gorm.DB, c Call) *gorm.DB {
 		return tx.Attrs(HRow{B: n + 100})
 	case "Assign":
 		return tx.Assign(map[string]interface{}{"c": n + 200})
+	case "SelectField":
+		return tx.Select("S") // a column given by its Go field name
 	case "SelectRel":
 		return tx.Select("Pets", "Pets.Toy")
 	case "SelectAssoc":
@@ -221,6 +229,11 @@ func (e *env) finish(tx *gorm.DB, f string, hasModel bool) string {
 		extra = fmt.Sprintf("%d/%d/%d/%d", out.ID, out.A, out.B, out.C)
 	case "Create":
 		res = tx.Create(&HRow{A: 7})
+	case "CountOther":
+		// the handle is used with another model, whose field of the same name has another column
+		var n int64
+		res = tx.Model(&HOther{}).Count(&n)
+		extra = fmt.Sprint(n)
 	case "DeleteRec":
 		// a record with a key: selected associations are deleted first
 		res = tx.Delete(&HRow{ID: 3})
@@ -377,9 +390,9 @@ func replay(args []string) error {
 }
 
 var methods = []string{"Where", "WhereMap", "Or", "Not", "Select", "Omit", "Order", "Limit", "Offset", "Group", "Joins", "Distinct", "Unscoped",
-	"Scopes", "Returning", "Returning", "OrderByC", "Locking", "OnConflict", "Table", "Model", "Attrs", "Assign", "SelectRel", "SelectAssoc", "PreloadPets"}
+	"Scopes", "Returning", "Returning", "OrderByC", "Locking", "OnConflict", "Table", "Model", "Attrs", "Assign", "SelectRel", "SelectAssoc", "PreloadPets", "SelectField"}
 var hows = []string{"Session", "WithContext", "Debug", "SessionNewDB", "SessionCtx", "SessionNewDBCtx", "SessionSkipHooks", "SessionNewDBSkipHooks", "SessionNewDBPrepare", "SessionFull"}
-var finishersDry = []string{"Find", "First", "Take", "Count", "Pluck", "Update", "Delete", "Scan", "FirstOrInit", "Create", "DeleteRec"}
+var finishersDry = []string{"Find", "First", "Take", "Count", "Pluck", "Update", "Delete", "Scan", "FirstOrInit", "Create", "DeleteRec", "CountOther"}
 var finishersReal = []string{"Find", "First", "Count", "Pluck", "Scan", "FirstOrInit"}
 
 // random: histories of 20-60 operations.
@@ -409,12 +422,12 @@ func random(args []string) error {
 				return focus
 			}
 			m := methods[r.Intn(len(methods))]
-			if real && (m == "Joins" || m == "Group" || m == "Locking" || m == "Returning" || m == "Table" || m == "Select" || m == "Distinct" || m == "Omit" || m == "SelectRel" || m == "SelectAssoc") {
+			if real && (m == "Joins" || m == "Group" || m == "Locking" || m == "Returning" || m == "Table" || m == "Select" || m == "Distinct" || m == "Omit" || m == "SelectRel" || m == "SelectAssoc" || m == "SelectField") {
 				return "Where"
 			}
 			return m
 		}
-		if real && (focus == "Joins" || focus == "Group" || focus == "Locking" || focus == "Returning" || focus == "Table" || focus == "Select" || focus == "Distinct" || focus == "Omit" || focus == "SelectRel" || focus == "SelectAssoc") {
+		if real && (focus == "Joins" || focus == "Group" || focus == "Locking" || focus == "Returning" || focus == "Table" || focus == "Select" || focus == "Distinct" || focus == "Omit" || focus == "SelectRel" || focus == "SelectAssoc" || focus == "SelectField") {
 			focus = "Or"
 		}
 		if i%4 == 3 {
